@@ -59,6 +59,9 @@ def expected(kind, val, ts):
     raise ValueError(kind)
 
 
+AWARE_TS = ["2023-06-15T00:30:00+02:00", "2023-06-14T21:00:00-05:00", "2023-06-14T07:00:00+09:00", "2023-12-31T23:30:00-08:00", "2024-03-01T00:10:00+05:30", "2023-06-14T12:00:00+00:00"]
+
+
 def _single_reading(text):
     """True iff the library's own patterns offer exactly one full-coverage reading of the text (the part-of-day match itself).
     'morgen' (also tomorrow), 'so früh' (also Sunday + morning), 'vormittag' (also before + noon), 'afternoon' (after + noon) have several;
@@ -158,6 +161,15 @@ def plan(tier, seed):
                     yield ("B",) + f + (ts,)
                 for f in doy_today:
                     yield ("B",) + f + (ts,)
+        # timezone-aware reference times in the hours around local midnight (the wall clock of the given zone is the reference, not UTC)
+        for f in canon:
+            if f[0] == "doy" and f[1][1] not in (1, 28, 31):
+                continue
+            for ts in AWARE_TS:
+                yield ("Z",) + f + (ts,)
+        for f in pod_canon[:: 3]:
+            for ts in AWARE_TS:
+                yield ("Z",) + f + (ts,)
         # parts of day against every hour boundary (the rule compares against the clock)
         for f in pod_canon:
             for ts in pod_ts:
